@@ -15,6 +15,25 @@ CHECKS = {
     note="Trusted: TLC, zipfile, lxml, the projection (zip read with zipfile+lxml only; loaded package via iter_parts/rels). "
          "XML equivalence = prefix-independent canonical form modulo whitespace-only text between elements. Bounded by config constants.",
     technique="TLA+ state machine explored by TLC; TLC-generated packages replayed into the real library; observed traces validated by TLC"),
+ "C02": dict(
+    category="model_checking", design_ref="DESIGN.md §4 C02",
+    text="Deck.tla/MC_Deck.tla: history machine over the public API (open, slides access, add slide, add shape of every kind incl. picture/"
+         "movie/chart/OLE, replace data, notes, hyperlinks and slide jumps set/change/clear, layout removal incl. refused, core props, "
+         "read groups, save, reopen) from decks with non-contiguous / out-of-order slide part names. TLC enumerates every history up to the "
+         "depth bound per alphabet and emits one per distinct (state, last action); each is replayed on a real Presentation; every saved "
+         "zip (at save/reopen actions and at the end) is projected with zipfile+lxml and TLC evaluates the closure/consistency clauses "
+         "with the OpcPackage operators, plus re-open facets (order, shapes, text, pictures, charts).",
+    note="Trusted: TLC, zipfile/lxml projection, the facet reader (public read API on both sides). Bounded depth 3 (quick) / 4 (thorough) exhaustive per alphabet, simulation to depth 9-10.",
+    technique="TLA+ history machine explored by TLC; histories replayed into the real library; saved packages validated by TLC"),
+ "C06": dict(
+    category="model_checking", design_ref="DESIGN.md §4 C06",
+    text="Same machine; the Impl layer transcribes the id allocators (max+1 / turbo cache, first-gap for groups and freeforms, slide-id "
+         "max+1 with bottom-up fallback) and TLC checks freshness at design level over decks with id gaps, ids near 2^31, slide ids at "
+         "2147483647 and permuted part names (counterexamples are replayed, not trusted). After every real step the ids read from the "
+         "serialised parts are validated by TLC: new shape ids fresh and positive, slide ids fresh/in range/stable, relationship ids unique "
+         "and not reassigned while referenced, part names unique, slides named slide1..n once accessed, earlier lookups stable.",
+    note="Trusted: TLC, the lxml-based observation (never via prs.slides). Known finding: turbo mode + group/freeform allocator collision (experimental feature).",
+    technique="TLA+ allocator transcription checked by TLC + history replay + TLC trace validation on observed ids"),
  "C14": dict(
     category="model_checking", design_ref="DESIGN.md §4 C14",
     text="Table.tla has a property layer (regions read off the public readers, text tokens, frame = sum) and an Impl layer (the four "
